@@ -1,0 +1,151 @@
+// Copyright 2023 The Go Authors. All rights reserved.
+// Use of this source code is governed by a BSD-style
+// license that can be found in the LICENSE file.
+
+//go:build verif && (!goexperiment.jsonv2 || !go1.25)
+
+package jsontext
+
+import (
+	"bytes"
+	"io"
+)
+
+// Contracts for decode.go: the decoder's buffer algebra.
+//
+// View of a decodeBuffer: the absolute offset of buf[i] is baseOffset+i; the
+// window buf[prevStart:] is what fetch must retain. dbInv is the documented
+// invariant 0 <= prevStart <= prevEnd <= len(buf), plus the physical bound on
+// stream offsets that keeps the int64 offset arithmetic free of overflow.
+
+//@ spec isWS
+func isWS(c byte) bool { return c == ' ' || c == '\t' || c == '\n' || c == '\r' }
+
+//@ spec dbInv
+func dbInv(prevStart, prevEnd, n int, baseOffset int64) bool {
+	return 0 <= prevStart && prevStart <= prevEnd && prevEnd <= n && 0 <= baseOffset && baseOffset < 1<<61
+}
+
+//@ func (*decodeBuffer).needMore
+//@ inline
+//@ property C05 C20
+//@ ensures result == (pos == len(d.buf))
+
+//@ func (*decodeBuffer).offsetAt
+//@ property C05 C16 C20
+//@ requires d != nil && 0 <= d.baseOffset && d.baseOffset < 1<<61 && 0 <= pos
+//@ ensures result == d.baseOffset+int64(pos)
+
+//@ func (*decodeBuffer).previousOffsetStart
+//@ property C05 C16 C20
+//@ requires d != nil && dbInv(d.prevStart, d.prevEnd, len(d.buf), d.baseOffset)
+//@ ensures result == d.baseOffset+int64(d.prevStart)
+
+//@ func (*decodeBuffer).previousOffsetEnd
+//@ property C05 C16 C20
+//@ requires d != nil && dbInv(d.prevStart, d.prevEnd, len(d.buf), d.baseOffset)
+//@ ensures result == d.baseOffset+int64(d.prevEnd)
+
+//@ func (*decodeBuffer).previousBuffer
+//@ property C05 C16 C20
+//@ requires d != nil && dbInv(d.prevStart, d.prevEnd, len(d.buf), d.baseOffset)
+//@ ensures len(result) == d.prevEnd-d.prevStart
+//@ ensures vForall(0, len(result), func(i int) bool { return result[i] == d.buf[d.prevStart+i] })
+
+//@ func (*decodeBuffer).unreadBuffer
+//@ property C05 C16 C20
+//@ requires d != nil && dbInv(d.prevStart, d.prevEnd, len(d.buf), d.baseOffset)
+//@ ensures len(result) == len(d.buf)-d.prevEnd
+//@ ensures vForall(0, len(result), func(i int) bool { return result[i] == d.buf[d.prevEnd+i] })
+
+// ---------------------------------------------------------------- fetch
+//
+// Assumed contract of io.Reader.Read (the documented interface contract):
+// 0 <= n <= len(p), only p[:n] is written (the documentation allows p[n:] to
+// be used as scratch space; the decoder never reads those bytes before they
+// are overwritten by a later Read, so the contract below havocs all of p).
+
+//@ extern io.Reader.Read(p []byte) (n int, err error)
+//@ trusted io.Reader: documented interface contract (0 <= n <= len(p)); the reader does not touch the decoder's state
+//@ modifies p[:]
+//@ ensures 0 <= n && n <= len(p)
+
+//@ extern bytes.(*Buffer).Len() (result int)
+//@ trusted bytes.Buffer: number of unread bytes
+//@ ensures result >= 0
+
+//@ extern bytes.(*Buffer).Next(n int) (result []byte)
+//@ trusted bytes.Buffer: returns the next n unread bytes (n is always the value Len() just returned) as a slice of the buffer's own array
+//@ requires n >= 0
+//@ ensures len(result) == n
+//@ ensures freshArray(result)
+
+// fetch keeps the window buf[prevStart:] at the same absolute offsets (moving
+// it to the front of a possibly new array), and appends at least one byte on
+// success. The only bytes of the window that may differ afterwards are bytes
+// that were invalidateBufferByte and have been restored to '"' by
+// copyQuotedBuffer.
+//
+//@ spec isBytesBuffer
+func isBytesBuffer(r io.Reader) bool {
+	_, ok := r.(*bytes.Buffer)
+	return ok
+}
+
+//@ func (*decoderState).fetch
+//@ split
+//@ property C05 C16 C20
+//@ requires d != nil && dbInv(d.prevStart, d.prevEnd, len(d.buf), d.baseOffset)
+//@ requires nsLocalOK(d.Names.offsets, d.Names.unquotedNames) && nsRemoteOK(d.Names.offsets, len(d.buf)) && distinctArrays(d.Names.unquotedNames, d.buf)
+//@ modifies d.buf, d.buf[:cap(d.buf)], d.prevStart, d.prevEnd, d.baseOffset, d.Names.unquotedNames, d.Names.unquotedNames[:cap(d.Names.unquotedNames)], d.Names.offsets[:]
+//@ ensures inv: 0 <= d.prevStart && d.prevStart <= d.prevEnd && d.prevEnd <= len(d.buf) && 0 <= d.baseOffset
+//@ ensures shift: old(d.baseOffset) <= d.baseOffset && d.baseOffset <= old(d.baseOffset)+int64(old(d.prevStart))
+//@ ensures start: d.baseOffset+int64(d.prevStart) == old(d.baseOffset)+int64(old(d.prevStart))
+//@ ensures end: d.baseOffset+int64(d.prevEnd) == old(d.baseOffset)+int64(old(d.prevEnd))
+//@ ensures grow: d.baseOffset+int64(len(d.buf)) >= old(d.baseOffset)+int64(old(len(d.buf)))
+//@ ensures more: result == nil && !isBytesBuffer(d.rd) ==> d.baseOffset+int64(len(d.buf)) > old(d.baseOffset)+int64(old(len(d.buf)))
+//@ ensures same: result != nil ==> d.baseOffset+int64(len(d.buf)) == old(d.baseOffset)+int64(old(len(d.buf)))
+//@ ensures window: vForall(0, old(len(d.buf))-old(d.prevStart), func(k int) bool { return d.buf[d.prevStart+k] == old(d.buf[d.prevStart+k]) || (old(d.buf[d.prevStart+k]) == invalidateBufferByte && d.buf[d.prevStart+k] == '"') })
+//@ ensures names-local: nsLocalOK(d.Names.offsets, d.Names.unquotedNames) && len(d.Names.offsets) == old(len(d.Names.offsets))
+//@ ensures names-copied: d.rd != nil ==> vForall(0, len(d.Names.offsets), func(i int) bool { return d.Names.offsets[i] >= 0 })
+//@ ensures names-remote: nsRemoteOK(d.Names.offsets, len(d.buf))
+//@ ensures buf-alias: sameOrFresh(d.buf, old(d.buf))
+//@ ensures names-alias: sameOrFresh(d.Names.unquotedNames, old(d.Names.unquotedNames))
+//@ ensures names-distinct: distinctArrays(d.Names.unquotedNames, d.buf)
+//@ ensures-assumed stream-bound: d.baseOffset+int64(len(d.buf)) < 1<<61
+//@ loop 0 invariant buf: sameSlice(d.buf, entry(d.buf))
+//@ loop 0 invariant window: vForall(0, len(d.buf), func(i int) bool { return d.buf[i] == old(d.buf[i+d.prevStart]) || (old(d.buf[i+d.prevStart]) == invalidateBufferByte && d.buf[i] == '"') })
+//@ loop 0 invariant names: nsLocalOK(d.Names.offsets, d.Names.unquotedNames) && vForall(0, len(d.Names.offsets), func(i int) bool { return d.Names.offsets[i] >= 0 })
+//@ loop 0 invariant distinct: distinctArrays(d.Names.unquotedNames, d.buf)
+
+// ---------------------------------------------------------------- consume* wrappers
+//
+// Each wrapper re-anchors its position across fetch calls: the returned
+// position denotes the same absolute stream offset whatever the number of
+// refills and wherever the chunk boundaries fell, and the final scanner call
+// ran on the final buffer.
+
+//@ func (*decoderState).consumeWhitespace
+//@ property C05 C16 C20
+//@ requires d != nil && dbInv(d.prevStart, d.prevEnd, len(d.buf), d.baseOffset) && d.prevStart <= pos && pos <= len(d.buf) && d.baseOffset+int64(len(d.buf)) < 1<<61
+//@ requires nsLocalOK(d.Names.offsets, d.Names.unquotedNames) && nsRemoteOK(d.Names.offsets, len(d.buf)) && distinctArrays(d.Names.unquotedNames, d.buf)
+//@ modifies d.buf, d.buf[:cap(d.buf)], d.prevStart, d.prevEnd, d.baseOffset, d.Names.unquotedNames, d.Names.unquotedNames[:cap(d.Names.unquotedNames)], d.Names.offsets[:]
+//@ ensures inv: dbInv(d.prevStart, d.prevEnd, len(d.buf), d.baseOffset) && d.prevStart <= newPos && newPos <= len(d.buf)
+//@ ensures start: d.baseOffset+int64(d.prevStart) == old(d.baseOffset)+int64(old(d.prevStart))
+//@ ensures end: d.baseOffset+int64(d.prevEnd) == old(d.baseOffset)+int64(old(d.prevEnd))
+//@ ensures forward: d.baseOffset+int64(newPos) >= old(d.baseOffset)+int64(pos)
+//@ ensures ok: err == nil ==> newPos < len(d.buf) && !isWS(d.buf[newPos])
+//@ ensures eof: err != nil ==> newPos == len(d.buf)
+//@ ensures skipped: vForall(d.prevStart+(pos-old(d.prevStart)), newPos, func(i int) bool { return isWS(d.buf[i]) })
+//@ ensures names: nsLocalOK(d.Names.offsets, d.Names.unquotedNames) && nsRemoteOK(d.Names.offsets, len(d.buf)) && distinctArrays(d.Names.unquotedNames, d.buf) && len(d.Names.offsets) == old(len(d.Names.offsets))
+//@ ensures alias: sameOrFresh(d.buf, old(d.buf)) && sameOrFresh(d.Names.unquotedNames, old(d.Names.unquotedNames))
+//@ at call jsonwire.ConsumeWhitespace#0 assert shifted: vForall(pos-callResult, pos, func(i int) bool { return isWS(d.buf[i]) })
+//@ loop 0 invariant inv: dbInv(d.prevStart, d.prevEnd, len(d.buf), d.baseOffset)
+//@ loop 0 invariant pos: d.prevStart <= pos && pos <= len(d.buf)
+//@ loop 0 invariant bound: d.baseOffset+int64(len(d.buf)) < 1<<61
+//@ loop 0 invariant start: d.baseOffset+int64(d.prevStart) == old(d.baseOffset)+int64(old(d.prevStart))
+//@ loop 0 invariant end: d.baseOffset+int64(d.prevEnd) == old(d.baseOffset)+int64(old(d.prevEnd))
+//@ loop 0 invariant forward: d.baseOffset+int64(pos) >= old(d.baseOffset)+int64(old(pos))
+//@ loop 0 invariant skipped: vForall(d.prevStart+(old(pos)-old(d.prevStart)), pos, func(i int) bool { return isWS(d.buf[i]) })
+//@ loop 0 invariant names: nsLocalOK(d.Names.offsets, d.Names.unquotedNames) && nsRemoteOK(d.Names.offsets, len(d.buf)) && distinctArrays(d.Names.unquotedNames, d.buf) && len(d.Names.offsets) == old(len(d.Names.offsets))
+//@ loop 0 invariant alias: sameOrFresh(d.buf, old(d.buf)) && sameOrFresh(d.Names.unquotedNames, old(d.Names.unquotedNames))
